@@ -135,7 +135,7 @@ let run (input : string) : string =
     let h = List.map gres_to_string (g_run fs font_new ops) in
     let f = List.map gres_to_string (g_spec_run fs dEFAULT_IMAGE_FILTER ops) in
     "h=" ^ String.concat ";" h ^ "#f=" ^ String.concat ";" f
-  | "F" :: _ | "P" :: _ | "P1" :: _ | "P2" :: _ -> "-"
+  | "F" :: _ | "T" :: _ | "P" :: _ | "P1" :: _ | "P2" :: _ -> "-"
   | _ -> failwith "c03 input"
 
 let kind (input : string) : string =
@@ -169,13 +169,16 @@ let judge (input : string) (impl : string) (model : string) : verdict =
                       Printf.sprintf "call %d returned %s after the earlier calls but %s on a fresh object" (i + 1) a b)
          | None -> if impl = model then Agree else Mismatch "implementation and model differ"
        end)
-  | "F" | "P" | "P2" ->
+  | "F" | "T" | "P" | "P2" ->
     (match split_on ' ' impl with
      | [a; b] when a = "nofont" -> Mismatch "the font did not load"
      | [a; b] ->
        if a = b then Agree
        else if kind input = "F" then
          Violation ("history-font", Printf.sprintf "probe digest %s after the history, %s on a fresh Font" a b)
+       else if kind input = "T" then
+         Violation ("history-table",
+                    Printf.sprintf "calls on one GlyfTable gave digest %s, the same calls each on a freshly read table %s" a b)
        else Violation ("pure", Printf.sprintf "two runs gave %s and %s" a b)
      | _ -> Mismatch ("unexpected implementation output: " ^ impl))
   | _ -> Mismatch "unknown case kind"
@@ -190,5 +193,8 @@ let tag (input : string) (out : string) : string =
   | [_; font; hist; probe] when k = "F" ->
     let p = match String.index_opt probe ':' with Some i -> String.sub probe 0 i | None -> probe in
     Printf.sprintf "F-%s-%s-h%d" (if starts_with "syn:" font then "syn" else "fix") p (min 3 (List.length (ops_of hist)))
+  | [_; spec; hist; probe] when k = "T" ->
+    let p = match String.index_opt probe ':' with Some i -> String.sub probe 0 i | None -> probe in
+    Printf.sprintf "T-%s-%s-h%d" (if starts_with "r!" spec then "parsed" else "lazy") p (min 3 (List.length (ops_of hist)))
   | [_; what; _; _] -> k ^ "-" ^ what
   | _ -> k
